@@ -1,6 +1,7 @@
 #!/bin/bash
 # usage: try_seed.sh <patch.diff> <property> [tier]  — applies a seeded change to /repo, runs the check, reverts.
 P=$1; ID=$2; TIER=${3:-quick}
+if [ -n "$(git -C /repo status --porcelain)" ]; then echo "/repo is dirty: commit or stash first"; exit 3; fi
 git -C /repo apply "$P" || { echo "patch does not apply"; exit 2; }
 cd /verif && timeout 1800 bin/vcheck run --property $ID --tier $TIER > /tmp/try_seed.log 2>&1
 RC=$?
